@@ -110,7 +110,12 @@ if "benignsets" in cats:
         if only and pid not in only:
             continue
         for p in sorted(glob.glob(os.path.join(d, "b*.diff"))):
-            jobs.append(("benignset/%s/%s" % (os.path.basename(d), os.path.basename(p)), patch_job(p), ALL, "silent", None))
+            # REGRESS_BENIGN_CHECKS=related: the property itself and the properties that evaluate its rules (imports), not all 20
+            REL = {"C01": ["C02", "C07", "C09", "C10", "C11"], "C02": ["C01"], "C03": ["C13"], "C04": ["C07"], "C05": ["C15"], "C06": ["C07"], "C07": ["C03", "C04", "C06", "C09", "C15"],
+                   "C08": ["C09", "C11"], "C09": ["C11", "C07"], "C10": ["C11", "C01", "C08"], "C11": ["C08", "C10"], "C12": ["C15", "C17"], "C13": ["C03"], "C14": ["C15", "C12"], "C15": ["C07", "C14", "C05"],
+                   "C16": ["C17"], "C17": ["C16", "C18", "C12"], "C18": ["C17"], "C19": ["C17", "C20"], "C20": ["C19"]}
+            chk = sorted({pid} | set(REL.get(pid, []))) if os.environ.get("REGRESS_BENIGN_CHECKS") == "related" else ALL
+            jobs.append(("benignset/%s/%s" % (os.path.basename(d), os.path.basename(p)), patch_job(p), chk, "silent", None))
 
 print("%d jobs, %d workers" % (len(jobs), J), flush=True)
 scratch = tempfile.mkdtemp(prefix="regress-", dir="/tmp")
